@@ -23,6 +23,23 @@ CHECKS = [
         "Trusted: reference AVM mc/machine.py, reference graph mc/refcfg.py, tokenizer mc/asm.py. Bounded program size.",
         "explicit-state exploration of the reference AVM per program (all inputs of the region quotient) + bounded-exhaustive program enumeration; every model transition validated against the implementation graph",
         "DESIGN.md 3/C04"),
+    chk("C05", "model_checking",
+        "Every G1 program with a callsub (up to the tier's line bound) plus every arrangement of 4-6 one-line subroutines "
+        "(nested, shared, recursive, unreachable call sites, before/after main) is parsed and analysed; subroutine names, "
+        "block sets, exits, called subroutine and return point of every call site, caller/return-point tables at contract "
+        "and function level, and the edges of the exported call-graph DOT file are compared with an independent reference graph.",
+        "Trusted: reference graph mc/refcfg.py. Caller tables / call graph only where bodies are entered through callsub only.",
+        "bounded-exhaustive enumeration of call-graph layouts; reference-graph reachability compared with the implementation on every program",
+        "DESIGN.md 3/C05"),
+    chk("C06", "model_checking",
+        "Layered G2 spaces over GroupSize/GroupIndex atoms (6 operators, both operand orders): E1 explores every accepting "
+        "execution over all 136 (size,index) pairs and checks that every block passed lists the pair (soundness); O2 explores "
+        "an abstract transition system per value (16+16 values x program) and demands the listed sets equal the exact sets "
+        "on direct-check programs (bracketed by the context-insensitive sets on blocks with several calling contexts), plus "
+        "the index<size coupling on every block.",
+        "Trusted: reference AVM, O2 evaluator (mc/abstract.py). Bounded program size; exactness only on the direct-check fragment.",
+        "explicit-state exploration of the concrete AVM (all size/index pairs) and of an abstract per-value reachability system; invariant = tealer's per-block sets",
+        "DESIGN.md 3/C06"),
 ]
 
 _PENDING = "check not built yet in this session (work in progress; see DESIGN.md section 3 for the planned check)"
